@@ -63,11 +63,18 @@ fn probes() -> Vec<Probe> {
 
 /// One TTL vector through the real cache functions.
 fn one_vector(an: &[u32], ns: &[u32], ar: &[u32]) -> (u64, String, Vec<Violation>) {
+    one_vector_rc(an, ns, ar, 0)
+}
+
+/// The same for an upstream reply with response code `rc` (an error reply may carry records too;
+/// whatever the code, nothing is served past the smallest TTL it carries).
+fn one_vector_rc(an: &[u32], ns: &[u32], ar: &[u32], rc: u8) -> (u64, String, Vec<Violation>) {
     let q = rd::name("www.example.com");
-    let reply = mk_reply(&q, an, ns, ar);
+    let mut reply = mk_reply(&q, an, ns, ar);
+    reply.rcode = dnspkt::RCode(rc.into());
     let ttls = all_ttls(&reply);
     let m: u64 = ttls.iter().copied().min().unwrap_or(0) as u64;
-    let case = json!({"engine":"c06","part":"function","an":an,"ns":ns,"ar":ar});
+    let case = json!({"engine":"c06","part":"function","an":an,"ns":ns,"ar":ar,"rcode":rc});
     let mut vs: Vec<Violation> = vec![];
     let mut n = 0u64;
     let rt = tokio::runtime::Builder::new_current_thread().enable_time().start_paused(true).build().expect("rt");
@@ -309,7 +316,18 @@ fn function_part(rep: &mut Report, thorough: bool) -> (u64, std::collections::BT
     }
     work.sort();
     work.dedup();
-    let outs: Vec<(u64, String, Vec<Violation>)> = work.par_iter().map(|(a, b, c)| one_vector(a, b, c)).collect();
+    let mut outs: Vec<(u64, String, Vec<Violation>)> = work.par_iter().map(|(a, b, c)| one_vector(a, b, c)).collect();
+    // error replies: SERVFAIL, NXDOMAIN, REFUSED with the same TTL vectors
+    for rc in [2u8, 3, 5] {
+        let more: Vec<(u64, String, Vec<Violation>)> = work
+            .par_iter()
+            .map(|(a, b, c)| {
+                let (n, cls, vs) = one_vector_rc(a, b, c, rc);
+                (n, format!("rc{rc}:{cls}"), vs)
+            })
+            .collect();
+        outs.extend(more);
+    }
     let mut n = 0;
     let mut classes = std::collections::BTreeSet::new();
     let mut seen = std::collections::BTreeSet::new();
@@ -554,7 +572,7 @@ pub fn run(tier: &str, replay: Option<Value>) -> ! {
             }
         } else {
             let g = |k: &str| -> Vec<u32> { case[k].as_array().map(|a| a.iter().filter_map(|x| x.as_u64()).map(|x| x as u32).collect()).unwrap_or_default() };
-            for v in one_vector(&g("an"), &g("ns"), &g("ar")).2 {
+            for v in one_vector_rc(&g("an"), &g("ns"), &g("ar"), case["rcode"].as_u64().unwrap_or(0) as u8).2 {
                 rep.violation(v);
             }
         }
@@ -571,7 +589,7 @@ pub fn run(tier: &str, replay: Option<Value>) -> ! {
     rep.cov("traces_validated_against_impl", n + lq);
     rep.cov("evaluations", n + lq);
     rep.cov("distinct_nontrivial", classes.len() as u64 + agg.classes.len() as u64);
-    rep.cov("rule", "function: TTL vectors over {0,1,2,59,60,61,2^31,2^32-1}: one section over all lists of length <=2, the other two over lists of length <=1 (thorough <=2), all three choices of the varied section; for each, the real calculate_expiry/insert/get_entry/expire under tokio's paused clock at elapsed {0, 0.999, 1, min-1, min-0.001, min, min+0.001, min+1} s x 7 probe keys, before and after an expire sweep; re-insertion histories: TTL l1 at t=0, TTL l2 (other record data) after a gap in {0, 1 ms, l1-1ms, l1, l1+1ms, l1+1s, l1+29s, l1+31s} with/without a sweep between, l1,l2 in {0,1,2,8,30,300} (thorough 9 values), looked up at 13 instants with/without sweep: every hit must be explained by one of the two insertions. live: TTL {0,1,2,60} x class {IN,CH} x UDP/TCP asked at +0, +1.5 s and just past expiry; key variants (type, DO, CD, name, class); minimum over sections. transitions = cache lookups + live queries");
+    rep.cov("rule", "function: for response codes NOERROR, SERVFAIL, NXDOMAIN and REFUSED, TTL vectors over {0,1,2,59,60,61,2^31,2^32-1}: one section over all lists of length <=2, the other two over lists of length <=1 (thorough <=2), all three choices of the varied section; for each, the real calculate_expiry/insert/get_entry/expire under tokio's paused clock at elapsed {0, 0.999, 1, min-1, min-0.001, min, min+0.001, min+1} s x 7 probe keys, before and after an expire sweep; re-insertion histories: TTL l1 at t=0, TTL l2 (other record data) after a gap in {0, 1 ms, l1-1ms, l1, l1+1ms, l1+1s, l1+29s, l1+31s} with/without a sweep between, l1,l2 in {0,1,2,8,30,300} (thorough 9 values), looked up at 13 instants with/without sweep: every hit must be explained by one of the two insertions. live: TTL {0,1,2,60} x class {IN,CH} x UDP/TCP asked at +0, +1.5 s and just past expiry; key variants (type, DO, CD, name, class); minimum over sections. transitions = cache lookups + live queries");
     rep.cov("exhaustive", true);
     rep.cov("function_classes", json!(classes));
     rep.cov("live_classes", json!(agg.classes));
